@@ -13,6 +13,7 @@ pub mod c13;
 pub mod c14;
 pub mod c15;
 pub mod c16;
+pub mod c17;
 
 pub struct Prop {
     pub id: &'static str,
@@ -34,5 +35,6 @@ pub fn all() -> Vec<Prop> {
         Prop { id: "C14", run: c14::run, replay: c14::replay },
         Prop { id: "C15", run: c15::run, replay: c15::replay },
         Prop { id: "C16", run: c16::run, replay: c16::replay },
+        Prop { id: "C17", run: c17::run, replay: c17::replay },
     ]
 }
